@@ -681,6 +681,24 @@ func (in *inst) merge(b *ssa.BasicBlock, preds []*State, predBlocks []*ssa.Basic
 				}
 				if all {
 					st.Heap[k] = AVal{Kind: KSlice, Len: Lin{K: kk, T: map[string]*big.Rat{}}}
+					continue
+				}
+				// a buffer that is re-allocated on one side only (`if len(tmp) < m { tmp = make([]byte, m) }`): a fresh
+				// length with the bounds that hold on every incoming edge
+				var incs []inc
+				okAll := len(preds) >= 2 && len(preds) <= 4
+				for _, p := range preds {
+					w, ok := p.Heap[k]
+					if !ok || w.Kind != KSlice {
+						okAll = false
+						break
+					}
+					incs = append(incs, inc{p, w.Len})
+				}
+				if okAll {
+					nv := in.a.freshSlice(st, "join:"+k)
+					joinBounds(st, nv.Len, incs)
+					st.Heap[k] = nv
 				}
 			}
 		}
@@ -787,10 +805,6 @@ func (in *inst) merge(b *ssa.BasicBlock, preds []*State, predBlocks []*ssa.Basic
 		// min / max joins (`if a > b { a = b }`): bounds of the merged value by the incoming expressions and by
 		// the symbols they mention, kept when they hold on every incoming edge
 		if v.Kind == KInt {
-			type inc struct {
-				st *State
-				l  Lin
-			}
 			var incs []inc
 			allInt := true
 			for i, pb := range b.Preds {
@@ -805,70 +819,7 @@ func (in *inst) merge(b *ssa.BasicBlock, preds []*State, predBlocks []*ssa.Basic
 				}
 			}
 			if allInt && len(incs) >= 2 && len(incs) <= 4 {
-				var cands []Lin
-				seenC := map[string]bool{}
-				addC := func(l Lin) {
-					k := l.String()
-					if !seenC[k] && len(cands) < 24 {
-						seenC[k] = true
-						cands = append(cands, l)
-					}
-				}
-				for _, x := range incs {
-					addC(x.l)
-					var syms []string
-					for sname := range x.l.T {
-						syms = append(syms, sname)
-					}
-					sort.Strings(syms)
-					for _, sname := range syms {
-						addC(Sym(sname))
-					}
-				}
-				// bounds an incoming symbol has by a fact of its own edge (`n <= ppos - cpos` for n = copy(.., s[i:i+b])):
-				// each is only kept when it holds on every incoming edge
-				for _, x := range incs {
-					if len(x.l.T) != 1 || x.l.K.Sign() != 0 {
-						continue
-					}
-					var s string
-					for sname, co := range x.l.T {
-						if co.Cmp(rat(1)) == 0 {
-							s = sname
-						}
-					}
-					if s == "" {
-						continue
-					}
-					for _, f := range x.st.Facts {
-						co, has := f.L.T[s]
-						if !has || len(f.L.T) < 2 || len(f.L.T) > 4 {
-							continue
-						}
-						if co.Cmp(rat(-1)) == 0 {
-							addC(f.L.Add(Sym(s))) // E - s >= 0: s <= E
-						} else if co.Cmp(rat(1)) == 0 {
-							addC(f.L.Sub(Sym(s)).Neg()) // s - E >= 0: s >= E
-						}
-					}
-				}
-				for _, cnd := range cands {
-					le, ge := true, true
-					for _, x := range incs {
-						if le && !Proves(x.st.Facts, LE(x.l, cnd)) {
-							le = false
-						}
-						if ge && !Proves(x.st.Facts, GE(x.l, cnd)) {
-							ge = false
-						}
-					}
-					if le {
-						st.add(LE(v.Int, cnd))
-					}
-					if ge {
-						st.add(GE(v.Int, cnd))
-					}
-				}
+				joinBounds(st, v.Int, incs)
 			}
 		}
 		// constant range
@@ -900,6 +851,80 @@ func (in *inst) merge(b *ssa.BasicBlock, preds []*State, predBlocks []*ssa.Basic
 		in.env[ph] = v
 	}
 	return st
+}
+
+// inc is one incoming value of a join with the state of its edge.
+type inc struct {
+	st *State
+	l  Lin
+}
+
+// joinBounds adds to st the bounds of the merged value v that hold on every incoming edge: candidates are the
+// incoming expressions, the symbols they mention, and the bounds an incoming symbol has by a fact of its own edge
+// (`n <= ppos - cpos` for n = copy(.., s[i:i+b])).
+func joinBounds(st *State, v Lin, incs []inc) {
+	var cands []Lin
+	seenC := map[string]bool{}
+	addC := func(l Lin) {
+		k := l.String()
+		if !seenC[k] && len(cands) < 24 {
+			seenC[k] = true
+			cands = append(cands, l)
+		}
+	}
+	for _, x := range incs {
+		addC(x.l)
+		var syms []string
+		for sname := range x.l.T {
+			syms = append(syms, sname)
+		}
+		sort.Strings(syms)
+		for _, sname := range syms {
+			addC(Sym(sname))
+		}
+	}
+	for _, x := range incs {
+		if len(x.l.T) != 1 || x.l.K.Sign() != 0 {
+			continue
+		}
+		var s string
+		for sname, co := range x.l.T {
+			if co.Cmp(rat(1)) == 0 {
+				s = sname
+			}
+		}
+		if s == "" {
+			continue
+		}
+		for _, f := range x.st.Facts {
+			co, has := f.L.T[s]
+			if !has || len(f.L.T) < 2 || len(f.L.T) > 4 {
+				continue
+			}
+			if co.Cmp(rat(-1)) == 0 {
+				addC(f.L.Add(Sym(s))) // E - s >= 0: s <= E
+			} else if co.Cmp(rat(1)) == 0 {
+				addC(f.L.Sub(Sym(s)).Neg()) // s - E >= 0: s >= E
+			}
+		}
+	}
+	for _, cnd := range cands {
+		le, ge := true, true
+		for _, x := range incs {
+			if le && !Proves(x.st.Facts, LE(x.l, cnd)) {
+				le = false
+			}
+			if ge && !Proves(x.st.Facts, GE(x.l, cnd)) {
+				ge = false
+			}
+		}
+		if le {
+			st.add(LE(v, cnd))
+		}
+		if ge {
+			st.add(GE(v, cnd))
+		}
+	}
 }
 
 func constOf(st *State, l Lin) (*big.Rat, bool) {
